@@ -78,7 +78,54 @@ def monitor_history(oc, hseed, tier):
         if cls in CARRY:
             h = stable_hash([hseed, k])
             oc.nontrivial.add(h)
+    collection_reuse(oc, docs, f'history seed={hseed}')
     return docs
+
+
+def collection_reuse(oc, docs, label):
+    """The collection layer over the same messages: readers restore a fresh object every time, so two
+    collections built from one list of readers never share a tree and merge to the same result."""
+    from . import impl
+    from mosromgr.moscollection import MosCollection, MosReader
+    with warnings.catch_warnings():
+        warnings.simplefilter('ignore')
+        try:
+            readers = [MosReader.from_string(t) for t in docs]
+        except Exception:  # noqa: BLE001 - documents a reader cannot index (odd envelopes) belong to C18
+            return
+        oc.evaluations += 1
+        oc.in_domain += 1
+        oc.count('collection-reuse')
+        bad = []
+        for r in readers:
+            a, b = r.mos_object, r.mos_object
+            if a is b or set(ids_of(a.xml)) & set(ids_of(b.xml)):
+                bad.append('a reader restores the same tree twice')
+                break
+        results = []
+        trees = []
+        for _ in range(2):
+            try:
+                mc = MosCollection(sorted(readers), allow_incomplete=True)
+            except Exception as e:  # noqa: BLE001
+                results.append(('invalid', impl.err_name(e)))
+                continue
+            first = str(mc.ro)
+            try:
+                mc.merge(strict=False)
+            except Exception as e:  # noqa: BLE001
+                results.append((first, 'merge raised ' + impl.err_name(e), str(mc.ro)))
+            else:
+                results.append((first, None, str(mc.ro)))
+            trees.append(mc.ro.xml)
+        if len(results) == 2 and results[0] != results[1]:
+            bad.append('a second collection over the same readers starts from / merges to a different running order')
+        if len(trees) == 2 and set(ids_of(trees[0])) & set(ids_of(trees[1])):
+            bad.append('two collections over the same readers share Element objects')
+    if bad:
+        oc.failing.append({'kind': 'alias-history', 'history': list(docs), 'label': label + ' (collection over the same readers, twice)',
+                           'spec': '; '.join(bad), 'collection': True})
+    oc.nontrivial.add(stable_hash(['coll', docs]))
 
 
 CARRY = {'StorySend', 'StoryAppend', 'StoryInsert', 'StoryReplace', 'ItemInsert', 'ItemReplace', 'MetaDataReplace',
@@ -181,6 +228,10 @@ def replay(pid, fl):
         o_re, o_fr = merge(ro2, x), merge(fresh, impl.load(fl['carrier']))
         bad = bad or (o_re['err'], o_re['warns'], str(ro2)) != (o_fr['err'], o_fr['warns'], str(fresh))
         bad = bad or bool(set(ids_of(ro.xml)) & set(ids_of(ro2.xml)))
+    elif fl.get('collection'):
+        oc2 = Outcome(pid)
+        collection_reuse(oc2, fl['history'], 'replay')
+        bad = bool(oc2.failing)
     else:
         docs = fl['history']
         ro, other = impl.load(docs[0]), impl.load(docs[0])
